@@ -156,10 +156,21 @@ fn run_history(h: &Hist, st: &mut Stats) -> Result<(), String> {
             ));
         }
         if must_be_finished && !fin {
-            return Err(format!(
-                "after op #{} {:?}: all {} bytes accounted for and end signalled, but the body is not reported finished",
-                i, op, h.n
-            ));
+            // "... which always becomes true once N is reached and the caller signals the end": reaching N need not finish the body
+            // by itself (a report of bytes written elsewhere is bookkeeping); the documented end signal - an empty write, which
+            // needs no output space - must
+            st.class("end_signal_needed_after_reaching_n");
+            let r = with_out(0, |o| s.write(&[], o));
+            match r {
+                Ok((0, 0)) => {}
+                other => return Err(format!("after op #{} {:?}: the end signal (empty write) with all {} bytes accounted for returned {:?}", i, op, h.n, other)),
+            }
+            if !s.finished() {
+                return Err(format!(
+                    "after op #{} {:?}: all {} bytes accounted for and end signalled, but the body is not reported finished",
+                    i, op, h.n
+                ));
+            }
         }
     }
     st.evals(calls.max(1));
